@@ -2,7 +2,7 @@
    Proved here for the places where the parser model looks at token text; the whole-statement claim is judged on the
    implementation by surface variation of statements with known trees. *)
 From Coq Require Import List NArith ZArith Bool String Ascii Lia.
-Require Import Base.Common Gen.LexTable Lex.Model Cur.Model Tree.Value Gen.Static Parse.Prim Parse.Model Parse.LoopProofs Parse.C09Facts Expr.Spec Expr.Proofs.
+Require Import Base.Common Gen.LexTable Lex.Model Cur.Model Tree.Value Gen.Static Parse.Prim Parse.Model Parse.LoopProofs Parse.C09Facts Expr.Spec Expr.Proofs Lex.Compose Lex.Layout.
 Import ListNotations.
 Open Scope string_scope.
 Open Scope list_scope.
@@ -42,6 +42,25 @@ Theorem C09_limit_spellings_agree : forall n m zn zm rest, py_int n = Some zn ->
   = parse_limit (Leaf (S "limit") 0 :: Leaf m 72 :: Leaf (S ",") 0 :: Leaf n 72 :: rest).
 Proof. intros. rewrite (limit_offset_spelling n m zn zm rest) by assumption. rewrite (limit_comma_spelling n m zn zm rest) by assumption. reflexivity. Qed.
 
+(* 6. Layout at the lexer (Lex/Layout.v; shipped flags, base lexer and plug-in): a blank between two texts that lex on their own is nothing but
+   layout - the token list is the concatenation - unless the first text ends inside a line comment (the blank then belongs to the comment); a
+   line break is layout without that exception, because it also ends a line comment.  Applied repeatedly: neither the number of blanks and line
+   breaks between two complete pieces of a text nor a comment line between them changes the tokens, hence the tree. *)
+Theorem C09_blank_is_layout : forall mb s1 s2 t1 t2,
+  lex mb 7 s1 = Ok t1 -> lex mb 7 s2 = Ok t2 -> ends_in_line_comment mb 7 s1 = false ->
+  lex mb 7 (s1 ++ 32%N :: s2) = Ok (t1 ++ t2).
+Proof. exact lex_blank. Qed.
+Theorem C09_line_break_is_layout : forall mb s1 s2 t1 t2,
+  forallb plain_char s1 = true -> forallb plain_char s2 = true ->
+  lex mb 7 s1 = Ok t1 -> lex mb 7 s2 = Ok t2 -> ends_in_placeholder mb s1 = false ->
+  lex mb 7 (s1 ++ 10%N :: s2) = Ok (t1 ++ t2).
+Proof. exact lex_newline. Qed.
+Example C09_layout_example :
+  lex false 7 (S "SELECT a -- c" ++ 10%N :: S "FROM t") = lex false 7 (S "SELECT a" ++ 32%N :: S "FROM t") /\
+  ends_in_line_comment false 7 (S "SELECT a -- c") = true /\ ends_in_line_comment false 7 (S "SELECT a") = false /\
+  ends_in_placeholder false (S "SELECT a -- c") = false.
+Proof. vm_compute. repeat split. Qed.
+
 Print Assumptions C09_keyword_tests_case_blind.
 Print Assumptions C09_keyword_pairs_case_blind.
 Print Assumptions C09_keyword_sets_case_blind.
@@ -52,3 +71,6 @@ Print Assumptions C09_binop_spellings.
 Print Assumptions C09_cmpop_spellings.
 Print Assumptions C09_and_or_spellings.
 Print Assumptions C09_limit_spellings_agree.
+Print Assumptions C09_blank_is_layout.
+Print Assumptions C09_line_break_is_layout.
+Print Assumptions C09_layout_example.
